@@ -118,7 +118,7 @@ class Sim:
         return 0 if l is None else l[1] + 1
 
 
-def gen_history(rnd, nops, p_reject=0.12, p_boundary=0.15, flush_every=None, reads=True, allow_limits=False, max_batch=4):
+def gen_history(rnd, nops, p_reject=0.12, p_boundary=0.15, flush_every=None, reads=True, allow_limits=False, max_batch=4, noop_purge=True):
     """Returns a list of op strings (without the trailing observation ops)."""
     s = Sim()
     ops = []
@@ -243,6 +243,8 @@ def gen_history(rnd, nops, p_reject=0.12, p_boundary=0.15, flush_every=None, rea
             else:
                 u = (s.term, rnd.randint(0, 3))          # beyond an empty log
             lo = 0 if s.purged is None else s.purged[1] + 1
+            if u[1] < lo and not noop_purge:
+                continue
             if u[1] >= lo:
                 s.entries = [e for e in s.entries if e[1] > u[1]]
                 if s.purged is None or s.purged < u:
